@@ -12,6 +12,7 @@ import (
 	"sync"
 	"sync/atomic"
 	"testing"
+	"time"
 
 	"capnproto.org/go/capnp/v3/verifharness/pbt"
 )
@@ -32,13 +33,27 @@ func harnessDir() string {
 }
 
 func goEnv() []string {
-	return append(os.Environ(), "GOFLAGS=-mod=mod", "GOPROXY=off", "GOSUMDB=off", "GOTOOLCHAIN=local")
+	env := os.Environ()
+	if os.Getenv("GOFLAGS") == "" {
+		// (the driver sets GOFLAGS itself; in its development mode it carries a -modfile that must survive)
+		env = append(env, "GOFLAGS=-mod=mod")
+	}
+	return append(env, "GOPROXY=off", "GOSUMDB=off", "GOTOOLCHAIN=local")
 }
 
 // buildGenerator compiles capnpc-go from the repository's current working tree.
 func buildGenerator() (string, error) {
 	buildOnce.Do(func() {
-		dir := filepath.Join(harnessDir(), "c15work", fmt.Sprintf("bin%d", os.Getpid()))
+		work := filepath.Join(harnessDir(), "c15work")
+		// generator binaries of earlier runs (a test process has no place to remove its own when it ends)
+		if ents, err := os.ReadDir(work); err == nil {
+			for _, e := range ents {
+				if fi, err := e.Info(); err == nil && e.IsDir() && time.Since(fi.ModTime()) > 2*time.Hour {
+					os.RemoveAll(filepath.Join(work, e.Name()))
+				}
+			}
+		}
+		dir := filepath.Join(work, fmt.Sprintf("bin%d", os.Getpid()))
 		if err := os.MkdirAll(dir, 0o755); err != nil {
 			buildErr = err
 			return
@@ -172,9 +187,9 @@ func tail(s string, n int) string {
 
 var _ = pbt.Register(pbt.Spec[Model]{
 	Property: "C15", Name: "schemagen",
-	Rule:     "program = a drawn schema (1-3 enums, 3-10 top-level structs with 1-9 fields each over every data type, text, data, struct, list of every element type incl. nested lists, AnyPointer, groups nested up to depth 2, unions at struct and group level whose members share storage, defaults on a third of the fields incl. boundary bit patterns, text/data/struct pointer defaults), with offsets assigned by the model rather than by the compiler's packing (holes, scattered and overlapping union members, slack words); it is serialised as a CodeGeneratorRequest, run through capnpc-go built from the working tree three times (byte-identical output required), compiled together with an emitted test that calls every accessor the schema implies. Per field ~20 random backgrounds/values are compared bit-for-bit with the layout oracle. Non-trivial: the schema has a union, a group and a defaulted field.",
-	Quick:    4, Thorough: 12,
-	Gen:      GenModel,
-	Run:      run,
+	Rule:  "program = a drawn schema (1-3 enums, 3-10 top-level structs with 1-9 fields each over every data type, text, data, struct, list of every element type incl. nested lists, AnyPointer, capabilities of 0-2 method-less interfaces, groups nested up to depth 2, unions at struct and group level whose members share storage (a third of the unions consist mostly of pointer members - structs with and without defaults, interfaces - sharing pointer slots), defaults on a third of the fields incl. boundary bit patterns, text/data/struct pointer defaults), with offsets assigned by the model rather than by the compiler's packing (holes, scattered and overlapping union members, slack words); it is serialised as a CodeGeneratorRequest, run through capnpc-go built from the working tree three times (byte-identical output required), compiled together with an emitted test that calls every accessor the schema implies. Per field ~20 random backgrounds/values are compared bit-for-bit with the layout oracle; pointer setters are also given null values (the member is selected, the slot stays null); the _Future accessor of every struct field must yield the stored struct or exactly that field's default. Non-trivial: the schema has a union, a group and a defaulted field.",
+	Quick: 4, Thorough: 12,
+	Gen:       GenModel,
+	Run:       run,
 	NoJournal: false,
 })
